@@ -57,7 +57,7 @@ def variants_of(rel, all_trees, limit, rng):
                 stored -= set(n.names)
         params = [a.arg for a in fn.args.posonlyargs + fn.args.args + fn.args.kwonlyargs]
         private = fn.name.startswith("_") and not fn.name.startswith("__")
-        ren = set(stored)
+        ren = set(stored) - set(params)      # a re-assigned parameter is still part of the signature
         if private:
             # parameters of private helpers, unless some call site passes one by keyword
             ren |= {p for p in params[1 if cls is not None else 0:] if p not in kw}
